@@ -189,6 +189,16 @@ fn gen_family(seed: u64, fi: usize, stats: &mut BTreeMap<String, usize>) -> Fami
                         f.vfrom = v;
                     } else {
                         f.ty = g.gen_ty(2, Caps { default: kind != 2, key: false, copy: false });
+                        if kind == 2 {
+                            // the value returned by a default function is written into the source of
+                            // every later version: keep it independent of definitions that may still
+                            // gain fields (a stale value would make the *harness* panic)
+                            let mut tries = 0;
+                            while g.uni.any_ty(&f.ty, &|t| matches!(t, Ty::Def(..))) {
+                                tries += 1;
+                                f.ty = if tries > 5 { Ty::Prim(Prim::U32) } else { g.gen_ty(2, Caps { default: false, key: false, copy: false }) };
+                            }
+                        }
                     }
                     match kind {
                         1 if matches!(f.ty, Ty::Prim(p) if p.is_int()) => {
